@@ -30,8 +30,17 @@ def entry_cases(rng, tier):
     pc_index = t['rnames'].index('PC')
     out = []
     per_kind = 40 if tier == 'quick' else 1200
+    # the routing corners first: every mode x every SCR value with one bit set / one bit clear (NS, IRQ, FIQ, EA, FW, AW, ...),
+    # then random states
+    scr_grid = [0, 0x3FF] + [1 << k for k in range(10)] + [0x3FF ^ (1 << k) for k in range(10)]
+    plan = []
     for kind in KINDS:
-        for ci in range(per_kind):
+        for mode in MODES:
+            for scr in (scr_grid if tier != 'quick' else scr_grid[::2] if kind not in ('dabort', 'irq', 'fiq') else scr_grid):
+                plan.append((kind, mode, scr))
+        plan += [(kind, None, None)] * per_kind
+    for (kind, forced_mode, forced_scr) in plan:
+        for ci in range(1):
             cfgd = copy.deepcopy(statelib.DEFAULT_CFG)
             cfgd['have_security_ext'] = rng.random() < 0.75 or kind == 'smc'
             cfgd['have_virt_ext'] = (rng.random() < (0.5 if cfgd['have_security_ext'] else 0.1)) or kind == 'hyp_trap'
@@ -44,15 +53,20 @@ def entry_cases(rng, tier):
                 cfgd['has_imp_def_reset_vector'] = rng.random() < 0.4
                 cfgd['impdef_reset_vector'] = rng.choice([0, 0x8001, rng.getrandbits(32)])
                 cfgd['reset_values']['VBAR'] = rng.choice([0, 0x00400000, rng.getrandbits(27) << 5])
+            if forced_mode == 22:
+                cfgd['have_security_ext'] = True
+            if forced_mode == 26:
+                cfgd['have_security_ext'] = True
+                cfgd['have_virt_ext'] = True
             st = statelib.reset_state(t, cfg=cfgd, mem=[])
             modes = [m for m in MODES if (m != 22 or cfgd['have_security_ext']) and (m != 26 or cfgd['have_virt_ext'])]
-            mode = rng.choice(modes)
+            mode = forced_mode if forced_mode is not None else rng.choice(modes)
             it = rng.choice([0, 0, rng.getrandbits(8)])
             tj = rng.choice([0, 0, 1, 1, 2, 3])          # J:T
             cpsr = (rng.getrandbits(5) << 27) | ((it & 3) << 25) | ((tj >> 1) << 24) | (rng.getrandbits(4) << 16) | \
                    ((it >> 2) << 10) | (rng.getrandbits(4) << 6) | ((tj & 1) << 5) | mode
             st['sys'][ix['cpsr']] = cpsr
-            st['sys'][ix['scr']] = rng.getrandbits(10)
+            st['sys'][ix['scr']] = rng.getrandbits(10) if forced_scr is None else forced_scr
             st['sys'][ix['sctlr']] = (statelib.DEFAULT_CFG['reset_values']['SCTLR'] & ~((1 << 13) | (1 << 24) | (1 << 25) | (1 << 30))) | \
                 (rng.getrandbits(1) << 13) | ((rng.random() < 0.3) << 24) | (rng.getrandbits(1) << 25) | (rng.getrandbits(1) << 30)
             st['sys'][ix['hsctlr']] = (rng.getrandbits(1) << 25) | (rng.getrandbits(1) << 30) | 0x30C50838
